@@ -137,8 +137,14 @@ def expect_joint(a, b):
     return ('accept', {'ratio': 1.0})
 
 
-EFFS = [0.9, 1, 0, 0.5, 1.0, 0.05, 1.2, -0.1, 1.0000001, '0.9', None]
-FRICS = [0, 0.05, 0.05, 0.1, 0.3, 0.6, 1, 1.0, 0.9, 1.5, -0.2, '0.1']
+import fractions as _fr
+import decimal as _dec
+import numpy as _np
+# in-range reals that are neither float nor int (documented parameter type: float or int): rejected, and like every rejection
+# without touching either element
+ODD_REALS = [_fr.Fraction(9, 10), _dec.Decimal('0.5'), _np.float32(0.5), _np.int64(1), _np.float16(0.25)]
+EFFS = [0.9, 1, 0, 0.5, 1.0, 0.05, 1.2, -0.1, 1.0000001, '0.9', None] + ODD_REALS
+FRICS = [0, 0.05, 0.05, 0.1, 0.3, 0.6, 1, 1.0, 0.9, 1.5, -0.2, '0.1'] + ODD_REALS[:3]
 
 
 class Call:
